@@ -189,6 +189,10 @@ class Report(object):
             "violations": len(unmatched),
         }
         ev["coverage"].update(self.extra)
+        if os.environ.get("VERIF_DUMP_INSTANCES"):
+            os.makedirs(os.environ["VERIF_DUMP_INSTANCES"], exist_ok=True)
+            with open(os.path.join(os.environ["VERIF_DUMP_INSTANCES"], "%s.json" % self.prop), "w") as f_:
+                json.dump(all_inst, f_)
         edir = os.environ.get("VERIF_EVIDENCE_DIR") or os.path.join(VERIF, "evidence")
         os.makedirs(edir, exist_ok=True)
         with open(os.path.join(edir, "%s.json" % self.prop), "w") as f:
